@@ -46,9 +46,13 @@ RULE = ("e2e: every subset of {input, dialog, retrieval, output} (+ the call wit
         "log: synthetic processing logs (rail segments finished / unfinished, dialog steps, ignored flows and actions, LLM infos) and a malformed "
         "stream (finish without start, action outside a rail, nested starts). non-trivial = e2e with at least one rail invoked or one LLM call, "
         "log with at least one rail start; distinct = distinct case JSON. "
+        "texts: 30% of the user texts / supplied bot messages (20-40% in seq / interp) and the results of rewriting rails (prepend / replace / append) are texts that look like syntax to the runtime's own plumbing: "
+        "$-first texts, $name for every context variable the code mentions, Jinja, quotes, backslashes, newlines, blanks, the empty text, keywords, JSON, 3 000 / 20 000 characters, the predefined messages, "
+        "and every string literal the code path compares a value with (ast scan on every run); a third of the configurations let the rail action read the text from the context instead of a parameter; "
+        "30% of the sequences derive later calls' texts from earlier calls' texts; a failing case is confirmed on a freshly built LLMRails. "
         "interp: rails of the two shipped shapes (check rail / rewriting rail, one registered action each) in lists of 0-4 input x 0-3 output rails x the 17 option values x texts: the real runtime vs the interpreter model on the generated llm_flows.co program (RailsInterp.drive), rail calls, LLM calls, reply and the complete event sequence of the call.")
 TRUSTED_BASE = [
-    "translator harness/translate/c16.py (literal lists of compute_generation_log by AST path; llm_flows.co guards through the repo's own Colang 1.0 parser + Python ast)",
+    "translator harness/translate/c16.py (literal lists of compute_generation_log by AST path; llm_flows.co guards through the repo's own Colang 1.0 parser + Python ast; the shape of the two `$name`-replacing loops of _process_start_action / create_event by normalised AST comparison)",
     "correspondence harness harness/props/C16.py + harness/impl/pipeline_opts.py (scripted rails, FakeLLM, md5 embedding engine, processing-log abstraction) + Lean driver Drive/C16.lean (JSON codecs, rule-table interpreter)",
     "the Colang 1.0 interpreter model (C14's V1Interp) inside RailsInterp.drive (generate_events with scripted actions) is PROVED to refine PipelineOpts.turn (pipeline_refines_interp, unbounded rail lists); that this model is what flows.py/runtime.py do is validated by C14's correspondence and by the `interp` family (harness/impl/c16_interp.py, event for event against log.internal_events), not proved",
 ]
@@ -57,6 +61,7 @@ ASSUMPTIONS = [
     "a bot message is supplied whenever output rails are selected and dialog rails are not (the documented usage), except when the input rails end the turn before it is needed; retrieval rails only accept",
     "rails have the shape `$v = execute action; if blocked: bot refuse to respond / create event XException; stop; if rewrite: $text = …`; one utterance per turn",
     "timestamps / durations of the generation log are not modelled",
+    "LLM completions are post-processed by the generation actions (strip, first line, quotes): texts that look like syntax are used as LLM answers only in `general` mode and only where the completion is returned as it is",
     "turns stay below the runtime's safety cap of 100 new events (a handful of thorough cases with 3+2+2 rails and a two-call dialog exceed it: generate raises 'Too many events.'; skipped and counted as event-cap-hit)",
 ]
 EXHAUSTIVE = {"quick": False, "thorough": True}
